@@ -141,7 +141,7 @@ func (rm *RpcMultiplexer) CallUnaryMethod(
 	}
 	{
 		for _, sh := range statsHandlers {
-			headers, _ := internal.ToMetadata(resp.GetHeader().Headers)
+			headers, _ := internal.ToMetadata(resp.GetHeader().GetHeaders())
 
 			sh.HandleRPC(ctx, &stats.InHeader{
 				Client:     true,
